@@ -16,6 +16,7 @@ import (
 	"testing"
 
 	"github.com/emmansun/gmsm/cfca"
+	"github.com/emmansun/gmsm/ecdh"
 	"github.com/emmansun/gmsm/pkcs"
 	"github.com/emmansun/gmsm/sm2"
 	"github.com/emmansun/gmsm/sm9"
@@ -85,6 +86,7 @@ var rangeTargets = []string{
 	"sec1-sm2", "sec1-typed-sm2", "p8-sm2", "p8-ecdh", "p8enc-gcm-sm2", "p8enc-cbc-sm2", "p8enc-ecb-sm2", "p8enc-pbes1-sm2", "pem-sm2", "env", "cfca",
 	"sec1-p256", "p8-p256", "sec1-p384", "p8enc-gcm-p256",
 	"sm9-asn1-signmaster", "sm9-asn1-encmaster", "p8-sm9-signmaster", "p8-sm9-encmaster",
+	"raw-sm2.NewPrivateKey", "raw-sm2.NewPrivateKeyFromInt", "raw-ecdh.NewPrivateKey",
 }
 
 var rangeScalars = []string{
@@ -315,6 +317,23 @@ func checkRange(c rangeCase, r *h.Rec) error {
 				return nilIfErr(smx509.ParseSM2PrivateKey(der))
 			}
 		}
+	case hasPrefix(c.Target, "raw-"):
+		var enc []byte
+		enc, v, valid = plantedScalar(c.Scalar, sm2N, 32, sm2Nm2, c.Seed)
+		k, _ := sm2KeyFor(v)
+		expect = k
+		blob = enc
+		switch c.Target {
+		case "raw-sm2.NewPrivateKey":
+			dec = func(b []byte) (any, error) { return nilIfErr(sm2.NewPrivateKey(b)) }
+			tolerated = len(enc) != 32 // the constructor documents exactly 32 bytes
+		case "raw-sm2.NewPrivateKeyFromInt":
+			dec = func(b []byte) (any, error) { return nilIfErr(sm2.NewPrivateKeyFromInt(new(big.Int).SetBytes(b))) }
+			tolerated = false
+		default:
+			dec = func(b []byte) (any, error) { return nilIfErr(ecdh.P256().NewPrivateKey(b)) }
+			tolerated = len(enc) != 32
+		}
 	case c.Target == "env":
 		var enc []byte
 		enc, v, valid = plantedScalar(c.Scalar, sm2N, 32, sm2Nm2, c.Seed)
@@ -413,6 +432,14 @@ func checkRange(c rangeCase, r *h.Rec) error {
 	}
 	if !valid {
 		return fmt.Errorf("%s: out-of-range private scalar %s (value %x) was accepted, returned %T %s; container %s", c.Target, c.Scalar, v, got, describeKey(got), h.Hex(blob))
+	}
+	if e, ok := got.(*ecdh.PrivateKey); ok {
+		k := expect.(*sm2.PrivateKey)
+		if string(e.Bytes()) != string(ref.Bytes32(v)) || string(e.PublicKey().Bytes()) != string(elliptic.Marshal(sm2.P256(), k.X, k.Y)) {
+			return fmt.Errorf("%s: planted valid scalar %s (%x): ECDH key holds %x / %x", c.Target, c.Scalar, v, e.Bytes(), e.PublicKey().Bytes())
+		}
+		r.Label("plant:accepted-correct-key")
+		return nil
 	}
 	if err := sameKey(expect, got); err != nil {
 		return fmt.Errorf("%s: planted valid scalar %s (%x): decoder returned a different key: %v", c.Target, c.Scalar, v, err)
